@@ -138,7 +138,14 @@ def g_disc(rng, i, **kw):
     if fl == "B" and rng.random() < 0.4:
         scripts[1].append("addstream:%d" % nxt)
         scripts[nxt] = [rng.choice(rcv) for _ in range(rng.choice([2, 4, 7]))] + ["drop"]; nxt += 1
-    scripts[1] += [rng.choice(rcv) for _ in range(rng.choice([3, 6, 9]))] + [rng.choice(["drop", "unsub"])]
+    if kind == "plain" and len(scripts) == 2 + (len([a for a in scripts if a >= 2 and scripts[a] and scripts[a][0].startswith("send")])) and rng.random() < 0.5:
+        # the only handle of its stream: convert and use the in-place view entry points
+        scripts[1] += ["intosingle"] + [rng.choice(["view", "view", "bview", "recv"]) for _ in range(rng.choice([3, 6, 9]))]
+    elif kind == "fut" and rng.random() < 0.3 and not any(c.startswith(("clone", "addstream")) for c in scripts[1]):
+        scripts[1] += ["intosingle"] + [rng.choice(["poll", "recv", "apoll"]) for _ in range(rng.choice([3, 6, 9]))]
+    else:
+        scripts[1] += [rng.choice(rcv) for _ in range(rng.choice([3, 6, 9]))]
+    scripts[1] += [rng.choice(["drop", "unsub"])]
     return scen.Scn("disc%d" % i, fl, kind, cap, wk, sf, sy, scripts,
                     scen.sched_rand(rng, scripts, rng.choice([40, 150, 400])), limit=2500, tags=("disc",))
 
@@ -204,6 +211,33 @@ def g_block(rng, i, **kw):
     return scen.Scn("blk%d" % i, fl, "plain", cap, wk, sf, sy, scripts,
                     scen.sched_rand(rng, scripts, rng.choice([30, 80, 200])), limit=1600, tags=("block",))
 
+def g_lapped(rng, i, **kw):
+    """a consumer already inside a blocking receive is lapped: a sibling on the same stream takes the value it
+    waits for, the producer refills the slot, the sibling leaves and the producer stays alive but silent"""
+    fl = kw.get("fl") or rng.choice("BM")
+    wk = rng.choice(["busy", "yield", "block", "block"])
+    sf, sy = (0, 0) if wk == "busy" else _spins(rng)
+    cap = rng.choice([1, 1, 2, 4])
+    n = cap_n(cap)
+    scripts = {0: [], 1: ["clone:2"], 2: []}
+    sched = ["1*"]
+    waiter_call = rng.choice(["brecv", "brecv", "bview"]) if False else "brecv"
+    scripts[1].append(waiter_call)
+    sched += ["1"] * rng.choice([6, 9, 12, 16, 22, 30])
+    val = 1
+    for _ in range(n):
+        scripts[0].append("send:%d" % val); val += 1; sched.append("0*")
+    for _ in range(n):
+        scripts[2].append("recv"); sched.append("2*")
+    if rng.random() < 0.5:
+        sched += ["1"] * rng.choice([1, 2, 3, 5])
+    for _ in range(rng.choice([1, n])):
+        scripts[0].append("send:%d" % val); val += 1; sched.append("0*")
+    scripts[2].append(rng.choice(["drop", "unsub"])); sched.append("2*")
+    if rng.random() < 0.3:
+        scripts[0].append("drop")
+    return scen.Scn("lapped%d" % i, fl, "plain", cap, wk, sf, sy, scripts, sched, limit=1500, tags=("lapped",))
+
 def g_fut(rng, i, **kw):
     """sink tasks and stream tasks that await notifications"""
     fl = kw.get("fl") or rng.choice("BBM")
@@ -226,7 +260,9 @@ def g_fut(rng, i, **kw):
             calls.append(style if style != "mix" else rng.choice(["apoll", "poll", "recv", "brecv"]))
         if rng.random() < 0.25:
             calls = calls[:1]
-        scripts[c] += calls + ([rng.choice(["drop", "unsub"])] if rng.random() < 0.75 else [])
+        if c != 1 and rng.random() < 0.3:
+            calls = []          # a stream that lags behind and then leaves
+        scripts[c] += calls + ([rng.choice(["drop", "unsub"])] if (rng.random() < 0.75 or not calls) else [])
     senders = [0]
     if rng.random() < 0.4:
         scripts[0].append("clone:%d" % nxt); scripts[nxt] = []; senders.append(nxt); nxt += 1
@@ -483,7 +519,7 @@ def g_solo(rng, i, **kw):
 
 GENS = {"seq": g_seq, "rand": g_rand, "pc": g_pc, "view": g_view, "teardown": g_teardown, "disc": g_disc,
         "norecv": g_norecv, "block": g_block, "fut": g_fut, "churn": g_churn, "quiesce": g_quiesce,
-        "addstream": g_addstream, "unsub": g_unsub, "handles": g_handles, "futseq": g_futseq, "solo": g_solo, "reclaim": g_reclaim}
+        "addstream": g_addstream, "unsub": g_unsub, "handles": g_handles, "futseq": g_futseq, "solo": g_solo, "reclaim": g_reclaim, "lapped": g_lapped}
 
 # ---------------------------------------------------------------- small scenarios for exhaustive schedules
 def smalls_ring():
@@ -505,7 +541,7 @@ PROPS = {
     "C07": {"gens": [("disc", 130, {}), ("rand", 30, {})], "small": [], "oracles": ["C07"]},
     "C13": {"gens": [("norecv", 130, {}), ("rand", 20, {})], "small": [], "oracles": ["C13"]},
     "C06": {"gens": [("quiesce", 150, {})], "small": [], "oracles": ["C06"]},
-    "C08": {"gens": [("block", 170, {})], "small": [], "oracles": ["C08"]},
+    "C08": {"gens": [("block", 130, {}), ("lapped", 40, {})], "small": [], "oracles": ["C08"]},
     "C09": {"gens": [("seq", 110, {}), ("futseq", 50, {})], "small": [], "oracles": ["C09"]},
     "C10": {"gens": [("addstream", 150, {})], "small": [], "oracles": ["C01", "C03", "C10"]},
     "C11": {"gens": [("unsub", 150, {})], "small": [], "oracles": ["C11", "C01", "C03"]},
